@@ -106,7 +106,14 @@ class World:
         return out
 
     # -- operations
-    def new_doc(self):
+    def new_doc(self, nss=None):
+        """ProvDocument(), or ProvDocument(namespaces=…) with `nss` = [(prefix, uri), …] given as a dict or as Namespace objects"""
+        if nss:
+            arg = dict(nss) if (len({p for p, _u in nss}) == len(nss) and World._count % 2 == 0) else [Namespace(p, u) for p, u in nss]
+            d = ProvDocument(namespaces=arg)
+            h = self.bind_cont(d)
+            self.emit({"op": "new_doc", "as": h, "ns": [[p, u] for p, u in nss]}, {})
+            return h
         d = ProvDocument()
         h = self.bind_cont(d)
         self.emit({"op": "new_doc", "as": h}, {})
